@@ -470,7 +470,9 @@ fn eval_paste(req: &str) -> ImplOut {
         let obs_after: Vec<String> = observers.iter().map(|o| format!("{:?}|{:?}", model.get_cell_value_by_index(0, *o, 8), model.get_cell_value_by_index(0, *o, 9))).collect();
         // observers must not themselves be overwritten by the paste
         let hit = observers.iter().any(|o| *o >= tr && *o < tr + h && (8 >= tc && 8 < tc + w || 9 >= tc && 9 < tc + w));
-        if !hit && obs_before != obs_after {
+        // a cut cell that sat on a dependency cycle (e.g. =SUM(C:C) inside column C) is position dependent
+        let circular = obs_before.iter().any(|v| v.contains("#CIRC!"));
+        if !hit && !circular && obs_before != obs_after {
             out = out.fail("c16:cut:observer-value-changed", &format!("formulas pointing at the cut cells changed value: {obs_before:?} → {obs_after:?}"));
         }
     }
